@@ -118,6 +118,8 @@ def _value_of_body(f, body, rets):
             if sn['c'] == 'InlinedReturn' and sn['ch'] and s == b['ch'][-1]:
                 default = sn['ch'][0]
                 continue
+            if not any(f.n(j)['c'] == 'InlinedReturn' and f.n(j).get('inl') == sn.get('inl') for j in f.walk(s)):
+                continue        # a statement without a return of this helper between the guarded returns and the final one
             ok = False
             break
         if ok and arms and default and len(arms) + 1 == len(rets):
